@@ -24,6 +24,28 @@ fn extreme_header_line(rng: &mut Rng) -> Vec<u8> {
     make_line(ADDR, n, k, id, b"A", &payload, rng.below(6) as u8)
 }
 
+/// a sentence just outside (or at the edge of) the accepted grammar, with a *valid* checksum,
+/// so that a relaxed field check would let it through to the arithmetic behind it
+fn near_miss_line(rng: &mut Rng) -> Vec<u8> {
+    let plen = *rng.pick(&[1usize, 1, 1, 2, 3, 4, 28]);
+    let payload: Vec<u8> = (0..plen).map(|_| armor_char(rng.below(64) as u8)).collect();
+    let n = *rng.pick(&[1u8, 1, 2, 3]);
+    let k = rng.range(1, n as usize) as u8;
+    let base = make_line(ADDR, n, k, if n > 1 { Some(rng.below(10) as u8) } else { None }, b"A", &payload, rng.below(6) as u8);
+    let lx = lex(&base).unwrap();
+    let nums: &[&[u8]] = &[b"0", b"00", b"255", b"256", b"999", b"65536", b"4294967296", b"", b"-1", b"+1", b" 1", b"1 ", b"0x1", b"1e1"];
+    let fills: &[&[u8]] = &[b"6", b"7", b"8", b"9", b"10", b"16", b"255", b"256", b"", b"05", b"06", b"007", b"-1"];
+    let repl: Vec<(usize, Vec<u8>)> = match rng.below(8) {
+        0 | 1 | 2 => vec![(6, rng.pick(fills).to_vec())],
+        3 => vec![(1, rng.pick(nums).to_vec())],
+        4 => vec![(2, rng.pick(nums).to_vec())],
+        5 => vec![(3, rng.pick(nums).to_vec())],
+        6 => vec![(5, vec![])],
+        _ => vec![(6, rng.pick(fills).to_vec()), (5, vec![armor_char(rng.below(64) as u8)])],
+    };
+    rewrite_fields(&base, &lx, &repl)
+}
+
 fn long_text_line(rng: &mut Rng) -> Vec<u8> {
     // type 12 / 14 with 15..40 characters of text (the no-alloc text buffer holds 20)
     let ty = *rng.pick(&[12u8, 14]);
@@ -76,9 +98,10 @@ impl Prop for C01 {
             // hand-placed adversarial lines
             let extras = rng.below(5);
             for _ in 0..extras {
-                let line = match rng.below(4) {
+                let line = match rng.below(6) {
                     0 | 1 => extreme_header_line(&mut rng),
                     2 => long_text_line(&mut rng),
+                    3 | 4 => near_miss_line(&mut rng),
                     _ => noise_line(&mut rng),
                 };
                 let at = rng.below(ops.len() + 1);
